@@ -19,6 +19,7 @@ type codecOp struct {
 	Count int64  // element count for Ints (constant) or -1
 	Put   bool   // encoder-side operation
 	Src   ssa.Value // encoder side: the value written
+	Sym   string    // encoder side: normal form of the value written (helpers and composite literals seen through)
 	Pos   token.Pos
 }
 
@@ -174,7 +175,16 @@ func codecOpsD(fn *ssa.Function, depth int) (ops []codecOp, capacity int64, stra
 					}
 				}
 				pDst := dstField(call)
+				hsub := Subst{}
+				for i, q := range cal.Params {
+					if i < len(call.Call.Args) {
+						hsub[q] = call.Call.Args[i]
+					}
+				}
 				for _, o := range hops {
+					if o.Put && o.Src != nil {
+						o.Sym = sym(&symCtx{}, o.Src, hsub, 0)
+					}
 					if o.Put {
 						if pm, isP := stripConv(o.Src).(*ssa.Parameter); isP && o.Field == "" {
 							// the helper writes one of its parameters: the value is the argument
@@ -219,6 +229,7 @@ func codecOpsD(fn *ssa.Function, depth int) (ops []codecOp, capacity int64, stra
 				op.Width = marshalWidth[name]
 				op.Field = srcField(argN(call, 0))
 				op.Src = argN(call, 0)
+				op.Sym = sym(&symCtx{}, op.Src, Subst{}, 0)
 			case "GetInt", "GetInt32":
 				op.Kind = strings.TrimPrefix(name, "Get")
 				op.Width = marshalWidth[name]
